@@ -324,7 +324,10 @@ def graphs_replay(ctx, mc_module, trace_module, driver_mod, graphs, invariants, 
     Exhaustive TLC + dump, edge-covering walks, replay, trace validation.  Returns summed statistics."""
     out = dict(states=0, transitions=0, edges_total=0, edges_replayed=0, accepted=0, executions=0, events=0,
                samples=[], okcount={}, devlog=[])
+    only = [x for x in os.environ.get("VERIF_ONLY", "").split(",") if x]     # development runs: a subset of the graphs
     for gr in graphs:
+        if only and not any(gr["name"] == x or gr["name"].startswith(x + "-") for x in only):
+            continue
         res, g = model_check(ctx, mc_module, gr["name"], gr["constants"], invariants=invariants, properties=properties,
                              dump=True, view=view)
         out["states"] += res.distinct
